@@ -243,8 +243,14 @@ impl<'a, Input: InputIndexer> MatchAttempter<'a, Input> {
     ) -> Option<(Input::Position, Input::Position)> {
         match re.insns.iat(ip + 1) {
             &Insn::Char(c) => {
-                let c = <<Input as InputIndexer>::Element as ElementType>::try_from(c)?;
-                Self::run_scm_loop_impl(input, pos, min, max, dir, scm::Char { c })
+                match <<Input as InputIndexer>::Element as ElementType>::try_from(c) {
+                    Some(c) => Self::run_scm_loop_impl(input, pos, min, max, dir, scm::Char { c }),
+                    // The character cannot occur in this kind of input (e.g. non-ASCII in ASCII
+                    // mode, or a surrogate in UTF-8), so the body never matches: the loop
+                    // succeeds with zero iterations iff that is allowed.
+                    None if min == 0 => Some((pos, pos)),
+                    None => None,
+                }
             }
             &Insn::Bracket(idx) => {
                 let bc = &re.brackets[idx];
@@ -316,8 +322,11 @@ impl<'a, Input: InputIndexer> MatchAttempter<'a, Input> {
     ) -> Option<Input::Position> {
         let result = match re.insns.iat(ip + 1) {
             &Insn::Char(c) => {
-                let c = <<Input as InputIndexer>::Element as ElementType>::try_from(c)?;
-                Self::compute_max_pos(input, pos, limit, dir, scm::Char { c })
+                match <<Input as InputIndexer>::Element as ElementType>::try_from(c) {
+                    Some(c) => Self::compute_max_pos(input, pos, limit, dir, scm::Char { c }),
+                    // The body can never match: no further iterations are possible.
+                    None => pos,
+                }
             }
             &Insn::Bracket(idx) => {
                 let bc = &re.brackets[idx];
